@@ -88,6 +88,7 @@ fn sys_opts() -> gen::GraphOpts {
         wide: false,
         mega: false,
         symlinks: false,
+        read_above: true,
     }
 }
 
